@@ -173,7 +173,13 @@ def zone_histories(rep, zd, rng, nhist):
     cases, metas = [], []
     for hi in range(nhist):
         steps, evs = [], []
-        for k in range(30):
+        two = hi % 3 == 2          # every third history: two calculators alive in the process, each with a default zone of its own
+        on = 1
+        for k in range(30 + (15 if two else 0)):
+            if two and rng.random() < 0.3:
+                evs.append({"ev": "switch", "from": on, "to": 3 - on})
+                on = 3 - on
+            tag = {"calc": 2} if on == 2 else {}
             if rng.random() < 0.35:
                 x = rng.random()
                 if x < 0.5:
@@ -189,7 +195,7 @@ def zone_histories(rep, zd, rng, nhist):
                     w = {"kind": "none"}
                     if sp.upper() in allnames:
                         continue
-                steps.append({"op": "set_tz", "v": sp})
+                steps.append(dict({"op": "set_tz", "v": sp}, **tag))
                 evs.append({"ev": "set_tz", "w": w})
             else:
                 wall = rng.randrange(0, 1440) * 60
@@ -199,17 +205,26 @@ def zone_histories(rep, zd, rng, nhist):
                     line = {"form": "time_conv", "w": wall, "z": dict(NOZONE), "z2": rng.choice(zd["all"])}
                 rs = [r for r in renderings(line, k, True) if "12am" not in r[0]]       # 12:xx am is the known finding of the literal forms
                 rs = [rs[k % len(rs)]]
-                steps.append({"op": "execute", "lang": "en", "text": rs[0][1]})
+                steps.append(dict({"op": "execute", "lang": "en", "text": rs[0][1]}, **tag))
                 evs.append({"ev": "execute", "lang": "en", "lines": [line]})
-        cases.append({"id": "zh%d" % hi, "cfg": render.cfg_with(), "steps": steps, "fresh": True})
+        case = {"id": "zh%d" % hi, "cfg": render.cfg_with(), "steps": steps, "fresh": True}
+        if two:
+            case["two"] = True
+        cases.append(case)
         metas.append(evs)
     obs = run_harness_stable_day(cases, "c11.hist", jobs=8)
     events, index = [], []
     for case, evs, o in zip(cases, metas, obs):
-        events.append(reset_event(case["cfg"], o.get("day0", 0), extra={"zones": allnames}))
+        events.append(reset_event(case["cfg"], o.get("day0", 0), extra=dict({"zones": allnames}, **({"two": True} if case.get("two") else {}))))
         index.append(None)
         steps = o.get("steps") or []
-        for k, e in enumerate(evs):
+        k = -1
+        for e in evs:
+            if e["ev"] == "switch":      # an event of the trace, not a call
+                events.append(dict(e))
+                index.append(None)
+                continue
+            k += 1
             st = steps[k] if k < len(steps) else o
             ev = dict(e)
             if e["ev"] == "set_tz":
